@@ -27,6 +27,9 @@ type ReplayDriver struct {
 // It returns the harness report and true iff the harness made the real code
 // misbehave (printed a GVC-REPLAY-VIOLATION line).
 func (e *Engine) tryReplay(id, fn, obl string, v *Verdict, rec map[string]any) (any, bool) {
+	if os.Getenv("GVC_NO_REPLAY") != "" {
+		return nil, false
+	}
 	vr := verifRoot()
 	var drivers []ReplayDriver
 	if err := readJSON(filepath.Join(vr, "replay", "drivers.json"), &drivers); err != nil {
@@ -93,4 +96,84 @@ func runHarness(d ReplayDriver, id, fn, obl string, v *Verdict) (map[string]any,
 		rep["output_tail"] = out
 	}
 	return rep, len(viol) > 0
+}
+
+// thoroughExtras: (1) smoke test: every replay harness whose function family overlaps the property's
+// functions is run once on the unchanged tree with the property's oracle (no obligation selected, so
+// the witnesses of recorded known findings are not exercised); (2) must-fail corpus: every seeded change
+// recorded in selftest.json for this property is applied to a scratch copy and must make the quick check fail.
+func (e *Engine) thoroughExtras(id string, keys []string) map[string]any {
+	out := map[string]any{}
+	vr := verifRoot()
+	var drivers []ReplayDriver
+	_ = readJSON(filepath.Join(vr, "replay", "drivers.json"), &drivers)
+	ran := map[string]bool{}
+	var reports []string
+	nh := 0
+	for _, d := range drivers {
+		if ran[d.File] {
+			continue
+		}
+		hit := false
+		for _, k := range keys {
+			if ok, _ := regexp.MatchString(d.Fn, k); ok {
+				hit = true
+			}
+		}
+		if !hit {
+			continue
+		}
+		ran[d.File] = true
+		nh++
+		rep, violated := runHarness(d, id, "", "", nil)
+		if violated {
+			for _, v := range rep["violations_on_real_code"].([]string) {
+				reports = append(reports, d.File+": "+v)
+			}
+		}
+	}
+	out["smoke_harnesses_run"] = nh
+	out["smoke_violations"] = len(reports)
+	out["smoke_reports"] = reports
+	// must-fail corpus
+	var st map[string][]string
+	_ = readJSON(filepath.Join(vr, "selftest.json"), &st)
+	var missed, detected []string
+	for _, seed := range st[id] {
+		tmp, err := os.MkdirTemp("", "gvc-selftest-")
+		if err != nil {
+			continue
+		}
+		repo := filepath.Join(tmp, "repo")
+		ok := exec.Command("rsync", "-a", "--exclude", ".git", repoDir()+"/", repo+"/").Run() == nil
+		if ok {
+			pc := exec.Command("patch", "-p1", "-s", "--no-backup-if-mismatch", "-i", filepath.Join(vr, "seeded", seed, "patch.diff"))
+			pc.Dir = repo
+			ok = pc.Run() == nil
+		}
+		if !ok {
+			os.RemoveAll(tmp)
+			missed = append(missed, seed+" (patch does not apply)")
+			continue
+		}
+		self, _ := os.Executable()
+		c := exec.Command(self, "check", id, "--tier", "quick")
+		c.Env = append(os.Environ(), "GVC_REPO="+repo, "GVC_OUT="+filepath.Join(tmp, "out"), "GVC_NO_REPLAY=1")
+		c.Dir = vr
+		err = c.Run()
+		code := 0
+		if ee, isExit := err.(*exec.ExitError); isExit {
+			code = ee.ExitCode()
+		}
+		if code == 1 {
+			detected = append(detected, seed)
+		} else {
+			missed = append(missed, seed)
+		}
+		os.RemoveAll(tmp)
+	}
+	out["selftest_seeded_changes"] = len(st[id])
+	out["selftest_detected"] = detected
+	out["selftest_missed"] = missed
+	return out
 }
